@@ -1,10 +1,11 @@
 (* C02 - An incremental build leaves what a from-scratch build would leave.
    Second sentence of the property (never "unchanged" while something differs from what
    was recorded, or was never recorded) in full; the recording side; the footprint of a
-   task. The end-to-end statement over histories is C02_statement (see Proofs/EngineHist). *)
+   task. The end-to-end statements over histories and whole builds are at the end of this file
+   (Proofs/EngineHistory.v). *)
 From Verif Require Import Base.Prelude Base.Graph Model.Sorter Model.Expr Model.Engine Model.EngineRun.
 From Verif Require Import Proofs.GraphProofs Proofs.SorterProofs Proofs.EngineTask Proofs.EngineLoop
-     Proofs.EngineBuild Proofs.EngineDag Proofs.EngineRefute.
+     Proofs.EngineBuild Proofs.EngineDag Proofs.EngineRefute Proofs.EngineHistory.
 
 (* "unchanged" is reported only if every dependency, the task source and every product
    exists and equals its recorded row - and the row exists *)
@@ -49,6 +50,61 @@ Theorem C02_rows_of_others : forall body c E dyn desel w t f t' k,
   t' <> tid t -> dblookup t' k (db (r_world (run_task body c E dyn desel w t f))) = dblookup t' k (db w).
 Proof. exact other_rows_untouched. Qed.
 
+(* ---------------------------------------------------------------- histories
+   [hreach defn w]: w is reached from the empty world by ANY finite history of file edits
+   (set, delete) and builds with arbitrary options, selections, task subsets of a catalogue
+   [defn] of task definitions, schedules, and task functions that raise or complete (a function
+   that returns without writing a product it declares is outside the claim, as are persist
+   tasks).  After any such history the rows of every task describe one run of its function. *)
+Theorem C02_rows_self_consistent_after_any_history : forall is_word lower body defn w t0,
+  hreach is_word lower body defn w -> defn (tid t0) = Some t0 -> m_persist t0 = false -> wf_task t0 ->
+  SC body w t0.
+Proof. exact history_sc. Qed.
+
+(* the property's "equivalently": in a world reached by any history, a task that is reported
+   unchanged has all its dependencies, and each of its products holds exactly what its function
+   writes from the dependencies as they are now - what a from-scratch run of it would leave *)
+Theorem C02_unchanged_means_up_to_date : forall is_word lower body defn w c E dyn desel t f,
+  hreach is_word lower body defn w -> defn (tid t) = Some t -> m_persist t = false -> wf_task t ->
+  covers_decl E t ->
+  r_out (run_task body c E dyn desel w t f) = OSkipUnchanged ->
+  deps_exist w t = true /\
+  forall p, In p (prods t) -> lookup p (fs w) = Some (body (tid t) (tsrc t) (dep_values w t) p).
+Proof. exact unchanged_means_up_to_date. Qed.
+
+(* the first sentence, per task: in the world ANY build leaves behind - whatever its options,
+   failures elsewhere, early stop - every task it reported as executed or as unchanged is
+   current: products = function(dependencies as they are at the end).  On a DAG with unique
+   producers these local equations have exactly one solution given the source files: the
+   from-scratch contents. *)
+Theorem C02_build_leaves_current :
+  forall is_word lower body c ts faults pref w E desel s0,
+  create_dag is_word lower c ts = DagOk E desel ->
+  from_dag (task_ids ts) E (map (fun t => (tid t, tprio t)) ts) = Some s0 ->
+  NoDup (task_ids ts) ->
+  (forall t, In t ts -> wf_task t) -> (forall t, In t ts -> m_persist t = false) ->
+  (forall i, good_fault (faults i)) -> (forall t, In t ts -> SC body w t) ->
+  forall t o, In t ts -> In (tid t, o) (x_reports (build is_word lower body c ts faults pref w)) ->
+  fresh_outcome o ->
+  current body (x_world (build is_word lower body c ts faults pref w)) t.
+Proof. exact build_leaves_current. Qed.
+
+Theorem C02_build_preserves_self_consistency : forall is_word lower body c ts faults pref w t0,
+  (forall t, In t ts -> tid t = tid t0 -> t = t0) -> m_persist t0 = false -> wf_task t0 ->
+  (forall i, good_fault (faults i)) ->
+  SC body w t0 -> SC body (x_world (build is_word lower body c ts faults pref w)) t0.
+Proof. exact build_preserves_sc. Qed.
+
+(* ... and that solution is unique: two worlds agreeing on the nodes no task produces, in both
+   of which every task is current, agree on every product - in particular the world a
+   successful build leaves and the world a from-scratch build of the same project leaves *)
+Theorem C02_current_unique : forall body l v1 v2,
+  topo l ->
+  (forall k, (forall u, In u l -> ~ In k (prods u)) -> lookup k (fs v1) = lookup k (fs v2)) ->
+  (forall t, In t l -> current body v1 t /\ current body v2 t) ->
+  forall t p, In t l -> In p (prods t) -> lookup p (fs v1) = lookup p (fs v2).
+Proof. exact current_unique. Qed.
+
 Print Assumptions C02_never_unchanged_if_differs.
 Print Assumptions C02_rows_only_on_success_or_persist.
 Print Assumptions C02_success_records_current_states.
@@ -56,3 +112,8 @@ Print Assumptions C02_recorded_rows_match.
 Print Assumptions C02_run_writes_body.
 Print Assumptions C02_footprint.
 Print Assumptions C02_rows_of_others.
+Print Assumptions C02_rows_self_consistent_after_any_history.
+Print Assumptions C02_unchanged_means_up_to_date.
+Print Assumptions C02_build_leaves_current.
+Print Assumptions C02_build_preserves_self_consistency.
+Print Assumptions C02_current_unique.
